@@ -13,9 +13,23 @@ def striped(engine, n, n2, stripes, extra=None, **kw):
     return jobs
 
 
+# The thorough case counts written below are scaled by this factor: one complete
+# thorough pass over all sixteen properties has to fit into a few hours on 16 cores.
+THOROUGH_SCALE = 0.4
+
+
+def _scaled(tier, quick, thorough):
+    if tier == "quick":
+        return quick
+    n, n2 = thorough
+    if n >= 1000:
+        n = int(n * THOROUGH_SCALE)
+    return n, n2
+
+
 def seq_plan(quick, thorough):
     def jobs(tier, cores):
-        n, n2 = quick if tier == "quick" else thorough
+        n, n2 = _scaled(tier, quick, thorough)
         return striped("seq", n, n2, cores if tier == "thorough" else min(cores, 8))
     return jobs
 
@@ -32,7 +46,7 @@ PLANS = {
 
 def simple(engine, quick, thorough, extra=None, stripes_q=8, **kw):
     def jobs(tier, cores):
-        n, n2 = quick if tier == "quick" else thorough
+        n, n2 = _scaled(tier, quick, thorough)
         return striped(engine, n, n2, cores if tier == "thorough" else min(cores, stripes_q), extra, **kw)
     return jobs
 
